@@ -104,16 +104,26 @@ def getXSTypeLabelFromNumber(xsTypeNumber: int) -> str:
     2-digit labels are supported when there is only one burnup group.
     """
     try:
-        if xsTypeNumber > ord("Z"):
-            # two digit. Parse
-            return chr(int(str(xsTypeNumber)[:2])) + chr(int(str(xsTypeNumber)[2:]))
-        elif xsTypeNumber < ord("A"):
+        if xsTypeNumber < ord("A"):
             raise ValueError(
                 f"Cannot convert invalid xsTypeNumber `{xsTypeNumber}` to char. "
                 "The number must be >= 65 (corresponding to 'A')."
             )
-        else:
-            return chr(xsTypeNumber)
+        # The number is the concatenation of the ordinals of one or two letters. Upper case
+        # ordinals (65-90) and 'a'-'c' (97-99) have two digits; 'd'-'z' (100-122) have three,
+        # and are the only ones starting with a "1".
+        digits = str(int(xsTypeNumber))
+        chars = []
+        while digits:
+            width = 3 if digits[0] == "1" else 2
+            chars.append(chr(int(digits[:width])))
+            digits = digits[width:]
+        label = "".join(chars)
+        if len(label) > 2 or any(ch not in _ALLOWABLE_XS_TYPE_LIST for ch in label):
+            raise ValueError(
+                f"Cannot convert invalid xsTypeNumber `{xsTypeNumber}` to an XS type label."
+            )
+        return label
     except ValueError:
         runLog.error("Error converting {} to label.".format(xsTypeNumber))
         raise
